@@ -97,7 +97,8 @@ def typed(v, kind):
 class C04(Prop):
     id = "C04"
     theorems = ["opTable_complete", "opTable_all_forms", "bcastShape_isSome", "zipBroadcast_get", "bcastIdx_get",
-                "getDims_first_prefix", "operation_attrs_dropped", "operation_same_dims_spec", "operation_same_dims_labels", "operation_same_dims_succeeds"]
+                "getDims_first_prefix", "operation_attrs_dropped", "operation_same_dims_spec", "operation_same_dims_labels", "operation_same_dims_succeeds", "operation_succeeds", "operation_dims", "operation_dims_cover", "operation_general_spec", "operation_general_labels", "operation_unshared_labels",
+                "operation_disjoint_dims", "operation_broadcast_sub", "operation_comma_name_counterexample"]
     rule = ("pairs of arrays of rank 0-3 over a pool of 1-3 dimension names with arbitrary overlap and order of "
             "dimensions; per-dimension label sets equal / overlapping / nested / disjoint, stored increasing / "
             "decreasing / shuffled, int/float/str and mixed int/float kinds; all six operators, both operand orders; "
